@@ -211,9 +211,62 @@ def gen_path(rng):
     return text(rng, 8)
 
 
+STATUSES = [100, 199, 200, 201, 204, 299, 300, 301, 302, 307, 399, 400, 401, 404, 418, 499, 500, 503, 599, 600, 999]
+ACCEPTS = [None, "text/html", "text/html,application/xhtml+xml,application/xml;q=0.9,*/*;q=0.8", "application/json",
+           "TEXT/HTML", "text/htm", "*/*", "", "application/xml, text/html;q=0.5", "text/plain"]
+RAW_REFERERS = ["/relative?x=1", "relative", "", "not a url", "//h.t/p", "?__err=x", "/p?__err=QQ%3D%3D&__path=%2Fapi%2Fglue",
+                "mailto", "caf\u00e9", "a b?c=d#e"]
+
+
+def glue_input(rng):
+    r = rng.random()
+    if r < 0.55:
+        return "E" + rng.choice("0123456789") + text(rng, 8, any_char if rng.random() < 0.3 else safe_char)
+    if r < 0.65:
+        return rng.choice(["E", "E:", "Ex1", "e4x", "", "E", "EE4x", " E4x"])
+    return text(rng, 10, any_char if rng.random() < 0.3 else safe_char)
+
+
+def gen_glue(rng):
+    r = rng.random()
+    if r < 0.30:
+        s = glue_input(rng)
+        return dict(case=[9, C.norm(s)], kind="glue-remote-vs-direct", compare=debug_safe(s.encode()))
+    if r < 0.65:
+        data = list(glue_input(rng).encode()) if rng.random() < 0.75 else wire_like(rng)
+        acc = rng.choice(ACCEPTS)
+        acc = [] if acc is None else [C.norm(acc)]
+        rr = rng.random()
+        if rr < 0.25:
+            ref = []
+        elif rr < 0.8:
+            pre, q, f = gen_base(rng)
+            ref = [1, pre, q, f]
+        else:
+            raw = rng.choice(RAW_REFERERS).encode()
+            if rng.random() < 0.15:
+                raw = raw + rng.choice([b"\xff", b"\xc3", b"\xe2\x82"])
+            ref = [2, list(raw)]
+        return dict(case=[8, data, acc, ref], kind="glue-server", compare=debug_safe(data))
+    st = rng.choice(STATUSES + [rng.randint(100, 999)])
+    loc = [] if rng.random() < 0.5 else [C.norm(rng.choice(["/", "/login", "http://h.t/next?x=1", "", "caf\u00e9"]))]
+    rr = rng.random()
+    if rr < 0.5:
+        body = wire_like(rng)
+    elif rr < 0.8:
+        body = list(text(rng, 8).encode())
+    else:
+        body = list(rand_bytes(rng, 8))
+    return dict(case=[7, C.norm(glue_input(rng)), st, rng.choice([0, 0, 1]), loc, body], kind="glue-client",
+                compare=debug_safe(body))
+
+
 def generate(rng, tier):
     n = 6000 if tier == "quick" else 100000
     for _ in range(n):
+        if rng.random() < 0.3:
+            yield gen_glue(rng)
+            continue
         r = rng.random()
         if r < 0.22:
             cust, kind, payload = gen_err(rng)
@@ -310,6 +363,100 @@ def b64_canonical(s, alphabet, pad):
     return bytes(out)
 
 
+def ref_body(s):
+    """the harness's demo server function body, written again here: ('ok', bytes) | ('err', [kind, payload])"""
+    b = s.encode()
+    if len(b) >= 2 and b[0:1] == b"E" and chr(b[1]).isdigit():
+        rest = b[2:]
+        d = b[1] - 48
+        if d == 0:
+            return ("err", [0, list(str(len(rest) % 256).encode())])
+        return ("err", [d, list(rest)])
+    return ("ok", list(b + b"!"))
+
+
+def ref_err_wire(err):
+    """wire string of an error printed as [kind, payload] (custom error = Code)"""
+    return TAGS[err[0]].encode() + b"|" + bytes(err[1])
+
+
+def oracle_glue(case, impl):
+    import base64 as B
+    import urllib.parse as U
+    op = case[0]
+    if op == 9:
+        remote, hooks, direct = impl
+        want = ref_body(bytes(case[1]).decode())
+        want = [0, want[1]] if want[0] == "ok" else [1, want[1]]
+        if direct != want:
+            return "harness: direct call differs from the reference body"
+        return None if remote == direct else "remote call result differs from the direct call"
+    if op == 7:
+        _, s, st, red, loc, body = case
+        res = impl[0]
+        if 400 <= st <= 599:
+            if res[0] != 1:
+                return "error status %d did not produce an Err" % st
+            return check_de(bytes(body), res[1])
+        try:
+            t = bytes(body).decode("utf-8")
+        except UnicodeDecodeError:
+            return None if (res[0] == 1 and res[1][0] == 6) else "undecodable response body did not produce a Deserialization error"
+        return None if res == [0, list(t.encode())] else "a decodable success response was not returned as Ok"
+    if op == 8:
+        _, data, acc, ref = case
+        status, body, errh, loc, ctype = impl
+        html = bool(acc) and b"text/html" in bytes(acc[0])
+        try:
+            want = ref_body(bytes(data).decode("utf-8"))
+        except UnicodeDecodeError:
+            want = ("malformed", None)
+        # the body always carries the result
+        if want[0] == "ok":
+            if bytes(body) != bytes(want[1]) or errh:
+                return "success response does not carry the returned value"
+        else:
+            if errh != [list(b"/api/glue")]:
+                return "error response lacks the serverfnerror header"
+            if want[0] == "err" and bytes(body) != ref_err_wire(want[1]):
+                return "error response body is not the error's wire form"
+            if want[0] == "malformed" and not (bytes(body).startswith(b"Deserialization|") or bytes(body).startswith(b"Args|")):
+                return "malformed request not answered with an argument-decoding error"
+        if not html:
+            if status != (200 if want[0] == "ok" else 500) or loc:
+                return "wrong status / unexpected redirect for a non-HTML client"
+            return None
+        if status != 302 or not loc:
+            return "HTML form post was not redirected"
+        target = bytes(loc[0]).decode()
+        is_url = ref and ref[0] == 1
+        if not is_url:
+            exp = "/" if not ref else bytes(ref[1]).decode("utf-8", "replace")
+            return None if target == exp else "redirect target is not the referer"
+        pre, q, f = ref[1], ref[2], ref[3]
+        if not target.startswith(bytes(pre).decode()):
+            return "redirect target is not the referer URL"
+        rest = target[len(bytes(pre)):]
+        rest = rest.split("#", 1)[0]
+        pairs = U.parse_qsl(rest[1:] if rest.startswith("?") else rest, keep_blank_values=True, errors="replace")
+        before = U.parse_qsl(bytes(q[0]).decode(), keep_blank_values=True, errors="replace") if q else []
+        if want[0] == "ok":
+            keep = [(k, v) for (k, v) in before if k not in ("__err", "__path")]
+            return None if pairs == keep else "stale error info not stripped from the referer (or other pairs changed)"
+        last = dict(pairs)          # dict() keeps the last value of a repeated key
+        if last.get("__path") != "/api/glue":
+            return "__path in the redirect URL is not this function's path"
+        w = b64_canonical(last.get("__err", "!"), URL64, True)
+        if w is None:
+            return "__err in the redirect URL is not canonical URL-safe base64"
+        if want[0] == "err" and w != ref_err_wire(want[1]):
+            return "the error embedded in the redirect URL is not the error the body returned"
+        if w != bytes(body):
+            return "the error embedded in the redirect URL differs from the response body"
+        return None
+    return None
+
+
 def oracle(item, impl):
     import base64 as B
     import urllib.parse as U
@@ -355,6 +502,8 @@ def oracle(item, impl):
         if w is None:
             return None if impl[0] == 6 else "malformed base64 in __err was not reported as a Deserialization error"
         return check_de(w, impl)
+    if op in (7, 8, 9):
+        return oracle_glue(case, impl)
     if op == 6:
         _, pre, q, f = case
         before = U.parse_qsl(bytes(q[0]).decode(), keep_blank_values=True, errors="replace") if q else []
@@ -371,6 +520,85 @@ def oracle(item, impl):
         want = [(k, v) for (k, v) in before if k not in ("__err", "__path")]
         return None if after == want else "strip_error_info did not remove exactly the __err/__path pairs"
     return None
+
+
+def _is_bytes(v, lo=0):
+    return isinstance(v, list) and all(isinstance(x, int) and lo <= x <= 255 for x in v)
+
+
+def _is_text(v):
+    if not _is_bytes(v):
+        return False
+    try:
+        bytes(v).decode("utf-8")
+        return True
+    except UnicodeDecodeError:
+        return False
+
+
+def _is_header(v):
+    return _is_bytes(v) and all((x >= 32 and x != 127) or x == 9 for x in v)
+
+
+def _is_opt(v, pred):
+    return isinstance(v, list) and (v == [] or (len(v) == 1 and pred(v[0])))
+
+
+import string as _string
+QOK = set(_string.ascii_letters + _string.digits + QCH + "_")
+
+
+def valid_case(item):
+    """generator preconditions (the shrinker keeps only candidates satisfying them)"""
+    c = item["case"]
+    try:
+        op = c[0]
+        if op == 0:
+            _, cust, kind, payload = c
+            if cust not in (0, 1) or kind not in range(10):
+                return False
+            if kind == 0:
+                return payload == [] if cust == 0 else (len(payload) == 1 and 0 <= payload[0] <= 255)
+            return _is_text(payload)
+        if op == 1:
+            return len(c) == 3 and c[1] in (0, 1) and _is_bytes(c[2])
+        if op == 2:
+            return len(c) == 2 and _is_bytes(c[1])
+        if op == 3:
+            return len(c) == 2 and _is_text(c[1])
+        if op == 4:
+            _, cust, kind, payload, path, pre, q, f = c
+            if not valid_case(dict(case=[0, cust, kind, payload])):
+                return False
+            return (_is_text(path) and bytes(pre).decode() in PRE + ["http://h.t/"]
+                    and _is_opt(q, lambda v: _is_bytes(v) and all(chr(x) in QOK for x in v))
+                    and _is_opt(f, lambda v: _is_bytes(v) and all(chr(x) in FCH for x in v)))
+        if op == 5:
+            return len(c) == 3 and c[1] in (0, 1) and _is_text(c[2])
+        if op == 6:
+            _, pre, q, f = c
+            return (bytes(pre).decode() in PRE + ["http://h.t/"]
+                    and _is_opt(q, lambda v: _is_bytes(v) and all(chr(x) in QOK for x in v))
+                    and _is_opt(f, lambda v: _is_bytes(v) and all(chr(x) in FCH for x in v)))
+        if op == 7:
+            _, s, st, red, loc, body = c
+            return (_is_text(s) and isinstance(st, int) and 100 <= st <= 999 and red in (0, 1)
+                    and _is_opt(loc, lambda v: _is_header(v) and _is_text(v)) and _is_bytes(body))
+        if op == 8:
+            _, data, acc, ref = c
+            if not (_is_bytes(data) and _is_opt(acc, lambda v: _is_header(v) and _is_text(v))):
+                return False
+            if ref == []:
+                return True
+            if ref[0] == 1:
+                return valid_case(dict(case=[6, ref[1], ref[2], ref[3]]))
+            return ref[0] == 2 and len(ref) == 2 and _is_header(ref[1]) and bytes(ref[1]).decode("utf-8", "replace") in \
+                [r.encode().decode() for r in RAW_REFERERS] + [r + "\ufffd" for r in RAW_REFERERS]
+        if op == 9:
+            return len(c) == 2 and _is_text(c[1])
+    except Exception:
+        return False
+    return False
 
 
 def nontrivial(item, model):
@@ -404,6 +632,17 @@ def describe(it):
             payload if kind == 0 else C.show_bytes(payload), base)
     if case[0] == 5:
         return "ServerFnUrlError::<ServerFnError<%s>>::decode_err(%r)" % (["NoCustomError", "Code"][case[1]], C.show_bytes(case[2]))
+    if case[0] == 7:
+        _, s_, st, red, loc, body = case
+        return "Glue{%r}.run_on_client() when the transport answers status=%d redirect-header=%d location=%r body=%r" % (
+            C.show_bytes(s_), st, red, [C.show_bytes(l) for l in loc], C.bs(body))
+    if case[0] == 8:
+        _, data, acc, ref = case
+        r = None if not ref else (C.show_bytes(ref[1]) + ("?" + C.show_bytes(ref[2][0]) if ref[2] else "") +
+                                  ("#" + C.show_bytes(ref[3][0]) if ref[3] else "")) if ref[0] == 1 else C.bs(ref[1])
+        return "POST /api/glue body=%r Accept=%r Referer=%r -> run_on_server" % (C.bs(data), [C.show_bytes(a) for a in acc], r)
+    if case[0] == 9:
+        return "Glue{%r}: run_on_client() through the loopback vs the body called directly" % (C.show_bytes(case[1]),)
     if case[0] == 6:
         _, pre, q, f = case
         return "strip_error_info(%r)" % (C.show_bytes(pre) + ("?" + C.show_bytes(q[0]) if q else "") + ("#" + C.show_bytes(f[0]) if f else ""),)
